@@ -39,6 +39,10 @@ DEL_VALUE = np.void(b"\x7f")  # ASCII DELETE
 T = TypeVar("T")
 
 
+class _PathInsideValueError(ValueError):
+    """A path leads through a dataset."""
+
+
 def _is_del_mark(val) -> bool:
     if isinstance(val, np.ndarray) and val.shape == ():
         val = val[()]  # scalar wrapped as 0-dim array is stored just like the scalar
@@ -332,7 +336,9 @@ class IH5InnerNode(IH5Node):
             ret.append(curr)
             # catch invalid access, e.g. /foo is record, user accesses /foo/bar:
             if not is_last_seg and isinstance(curr, IH5Dataset):
-                raise ValueError(f"Cannot access path inside a value: {curr._gpath}")
+                raise _PathInsideValueError(
+                    f"Cannot access path inside a value: {curr._gpath}"
+                )
         # return path index sequence
         return ret
 
@@ -356,6 +362,8 @@ class IH5InnerNode(IH5Node):
     def get(self, key: str, default=None):
         try:
             return self[key]
+        except _PathInsideValueError:
+            return default  # (there is nothing inside of a dataset)
         except KeyError as e:
             if str(e).find("not open") < 0:
                 return default
@@ -378,7 +386,10 @@ class IH5InnerNode(IH5Node):
 
     def __contains__(self, key: str):
         self._guard_key(key)
-        return self._find(key) is not None
+        try:
+            return self._find(key) is not None
+        except _PathInsideValueError:
+            return False  # (there is nothing inside of a dataset)
 
     def __iter__(self):
         return iter(self._children().keys())
